@@ -5,16 +5,8 @@ CONSTANT InitTombs = {FALSE}
 CONSTANT Modes = {FALSE}
 CONSTANT Kinds = {"put", "push", "del"}
 SPECIFICATION CSpec
-CONSTRAINT Progress
-POSTCONDITION Accept
+CONSTRAINT CProgress
+POSTCONDITION CAccept
 CHECK_DEADLOCK FALSE
-INVARIANT NoLostAck
-INVARIANT OwnSequence
-INVARIANT OneChildPerParent
-INVARIANT LosersLeaveNoTrace
-INVARIANT FeedAnnouncesFinal
-INVARIANT TypeOK
-INVARIANT SeqSane
-INVARIANT NotYetWritten
-INVARIANT CurIsWinner
-INVARIANT AccountedModuloDrop
+\* Auxiliary invariants TypeOK, M_SeqSane, NotYetWritten, CurIsWinner, M_Accounted and "the model explains every
+\* property failure by a named deviation" are evaluated on every conforming state by CProgress (collected)
